@@ -1447,6 +1447,13 @@ fn main() {
             sd.push(d);
             sd.push(-d);
         }
+        // the duration's own nanosecond count crossing 2^63 (a duration of
+        // about 292 years: mid-range for a zoned datetime) and 2^53, with the
+        // fraction at both ends of the last second
+        for d in [(1i128 << 63) - 1, 1i128 << 63, (1i128 << 63) + 145_224_191, 9_223_372_036_999_999_999, 9_223_372_035_999_999_999, (1i128 << 53) + 1] {
+            sd.push(d);
+            sd.push(-d);
+        }
         let sd_extreme = [
             SignedDuration::MIN,
             SignedDuration::MAX,
